@@ -135,7 +135,7 @@ theorem context_chain_restored_catch (econ : Ctx) (link : List Ctx) (r : Res) (m
     simp only [catchFinish] at h
     split at h
     · split at h
-      · exact absurd h (raise_not_ok _ _ _)
+      · split at h <;> exact absurd h (raise_not_ok _ _ _)
       · simp only [afterCatch] at h
         split at h
         · cases h
@@ -340,6 +340,46 @@ theorem catch_yields_message_exec (body : Prog) (m m1 m5 : M) (econ : Ctx)
   refine ⟨m', ?_, h2, h4, h5, h3, h6⟩
   simp only [execCore, hs, hb]
   rw [he]; exact h1
+
+/-! ### save_context refusing (control stack full) -/
+
+/-- save_context refuses exactly when the control stack holds MaxCallDepth frames (`csp == &control_stack[MAX-1]`);
+    a refusal returns before anything is stored or linked: there is no new state, the caller continues in `m` -/
+theorem saveContext_refuses_iff (m : M) : saveContext m = none ↔ m.maxDepth ≤ m.cs.length := by
+  unfold saveContext
+  constructor
+  · intro h
+    split at h
+    · assumption
+    · cases h
+  · intro h
+    simp [h]
+
+/-- do_catch when save_context refuses: `error("*Can't catch too deep recursion error.")` raised in the unchanged state -/
+theorem catch_refused (body : Prog) (m : M) (h : saveContext m = none) :
+    execCore (.catch_ body) m = raise "*Can't catch too deep recursion error." m := by
+  simp only [execCore, h]
+
+/-- safe_apply when save_context refuses: the function is not applied, the arguments are dropped, and both stacks
+    and the error-context chain are exactly as before the call -/
+theorem safeApply_refused (nargs declared : Nat) (body : Prog) (m : M) (h : saveContext (pushVals nargs m) = none) :
+    ∃ m', execCore (.safeApply nargs declared body) m = .ok m' ∧ m'.vs = m.vs ∧ m'.cs = m.cs ∧ m'.ctxs = m.ctxs := by
+  obtain ⟨m2, hp, h2v, h2c, h2x⟩ := popN_exact (n := nargs) (m := pushVals nargs m) (rest := m.vs) rfl (by simp)
+  exact ⟨m2, by simp only [execCore, h, hp], h2v, h2c, h2x⟩
+
+/-- **context_chain_restored for runs that hit the refusal** (and every other run): whatever an op does — including a
+    catch or a safe apply placed exactly where save_context refuses — if it completes, the chain is the chain before;
+    if it raises, the chain is the chain before.  (`exec_good` specialised to one op, stated for the chain.) -/
+theorem context_chain_restored_any (o : Op) (m : M) :
+    match execOp o m with
+    | .ok m' => m'.ctxs = m.ctxs
+    | .err m' => m'.ctxs = m.ctxs
+    | .crash _ _ => m.ctxs = [] := by
+  have h := execOp_good_of (execCore_good o) m
+  cases hr : execOp o m with
+  | ok m' => rw [hr] at h; exact h.ctxs
+  | err m' => rw [hr] at h; exact h.ctxs
+  | crash w m' => rw [hr] at h; exact h
 
 /-! ### top theorem: the model satisfies the oracle -/
 
